@@ -72,10 +72,19 @@ def execute(case):
     for op in case["ops"]:
         e = op["e"]
         if e == "Write":
-            comp.demand = op["D"] if n % 2 == 0 else float(op["D"])
-            events.append({"e": "Write", "D": op["D"], "cd": [scaled(c.demand, L) for c in mine], "nchildren": len(comp.children)})
+            raised = ""
+            try:
+                comp.demand = op["D"] if n % 2 == 0 else float(op["D"])
+            except Exception as ex:  # noqa: a write has no documented way to fail - the shares are what they are
+                raised = type(ex).__name__
+            events.append({"e": "Write", "D": op["D"], "cd": [scaled(c.demand, L) for c in mine], "nchildren": len(comp.children), "raised": raised})
         elif e == "Read":
-            events.append({"e": "Read", "demand": scaled(comp.demand, 1), "supply": scaled(comp.supply / ks, 1), "u": scaled(comp.utilisation, 4 * L), "a": scaled(comp.allocation, 4 * L), "nchildren": len(comp.children)})
+            def rd(fn, q):
+                try:
+                    return scaled(fn(), q)
+                except Exception:  # noqa: a read that raises gives no value on any grid
+                    return OFFGRID
+            events.append({"e": "Read", "demand": rd(lambda: comp.demand, 1), "supply": rd(lambda: comp.supply / ks, 1), "u": rd(lambda: comp.utilisation, 4 * L), "a": rd(lambda: comp.allocation, 4 * L), "nchildren": len(comp.children)})
         elif e == "SetChild":
             c = mine[op["i"] - 1]
             if op["attr"] == "s":
